@@ -6,9 +6,10 @@ import ast
 from typing import List, Optional, Tuple
 
 from ..core import rule
-from ..dataflow import DefUse
-from ..program import AnalysisError, dotted, src, walk_local
-from .common import (NotPure, eval_str_expr, first_returns_from, guarded, test_polarity_absent, unwrap_await,
+from ..dataflow import DefUse, depends_on, origins
+from ..program import AnalysisError, dotted, src
+from ..core import walk_local  # inline-aware
+from .common import (param_compare_tests, NotPure, eval_str_expr, first_returns_from, guarded, test_polarity_absent, unwrap_await,
                      where)
 from .storelib import facts, node_desc
 from .c01 import response_status
@@ -101,24 +102,30 @@ def h1(ctx):
 
 # ---------------------------------------------------------------------------- P1
 
-def _header_var(ctx, fi, cfg, du, header: str) -> Tuple[str, object]:
-    """Name of the local variable holding request.headers.get(<header>)."""
+def _header_var(ctx, fi, cfg, du, header: str) -> Tuple[List[str], object]:
+    """Names of the local variables holding request.headers.get(<header>) (one per read site)."""
+    names, first = [], None
     for n in cfg.stmt_nodes():
         a = n.ast
         if n.kind == "stmt" and isinstance(a, ast.Assign) and len(a.targets) == 1 and isinstance(a.targets[0], ast.Name):
             v = a.value
-            if isinstance(v, ast.Call) and isinstance(v.func, ast.Attribute) and v.func.attr == "get" \
-                    and (dotted(v.func.value) or "").endswith(".headers") and v.args:
+            if isinstance(v, ast.Call) and isinstance(v.func, ast.Attribute) and v.func.attr == "get" and v.args:
+                recv = origins(du, n, v.func.value)
+                if not (recv and all(o.kind == "expr" and not o.path and (dotted(o.leaf) or "").endswith(".headers") for o in recv)):
+                    continue
                 if ctx.P.try_fold(fi.module, v.args[0]) == header:
-                    return a.targets[0].id, n
-    return None, None
+                    if a.targets[0].id not in names:
+                        names.append(a.targets[0].id)
+                    first = first or n
+    return (names or None), first
 
 
-def _match_tests(cfg, var: str) -> List:
+def _match_tests(cfg, var) -> List:
+    vars_ = [var] if isinstance(var, str) else list(var)
     out = []
     for n in cfg.nodes:
         if n.kind == "test" and isinstance(n.ast, ast.Call) and (dotted(n.ast.func) or "").split(".")[-1] == "etag_matches" \
-                and n.ast.args and isinstance(n.ast.args[0], ast.Name) and n.ast.args[0].id == var:
+                and n.ast.args and isinstance(n.ast.args[0], ast.Name) and n.ast.args[0].id in vars_:
             out.append(n)
     return out
 
@@ -147,8 +154,9 @@ def _precondition_obligations(ctx, fi, header, fail_label, effects, effect_desc,
     if not tests:
         return [ctx.bad(construct, where(fi, defn), "%s evaluated before %s" % (header, effect_desc),
                         "the value of %s is read but never passed to etag_matches()" % header)]
-    byp = _bypass(cfg, [var] + list(extra_bypass_vars))
+    byp = _bypass(cfg, list(var) + list(extra_bypass_vars))
     covered, blocked = guarded(cfg, effects, tests, fail_label, byp)
+    var = "/".join(var)
     obs = []
     obs.append(ctx.ob(covered, construct, where(fi, tests[0]), "%s evaluated before %s" % (header, effect_desc),
                       "every path to the effect evaluates etag_matches(%s, ...) or takes the header-absent branch" % var,
@@ -265,32 +273,43 @@ def p2(ctx):
                  and (dotted(n.ast.func) or "").split(".")[-1] == "etag_matches"]
         if not tests:
             raise AnalysisError("%s: no etag_matches test" % q)
-        evars = set()
-        for t in tests:
-            a = t.ast.args[1] if len(t.ast.args) > 1 else None
-            if not isinstance(a, ast.Name):
-                obs.append(ctx.bad(q, where(fi, t), "etag_matches compares a variable", bad_message="second argument of etag_matches is %s" % src(a)))
-                continue
-            evars.add(a.id)
-            defs = du.reaching(t, a.id)
-            bad = []
-            for d in defs:
-                v = unwrap_await(d.value) if d.kind == "assign" else None
-                if isinstance(v, ast.Constant) and v.value is None:
-                    # allowed only on the branch where the resource does not exist
-                    req = cfg.required_conditions(d.node)
-                    okc = any(isinstance(tt, ast.Compare) and isinstance(tt.left, ast.Name) and tt.left.id == rvar
-                              and ((isinstance(tt.ops[0], ast.IsNot) and not pol) or (isinstance(tt.ops[0], ast.Is) and pol))
-                              for tt, pol in req)
-                    if not okc:
+        def absent_cond(t_, pol_):
+            """(test, polarity) says the addressed resource does not exist."""
+            if isinstance(t_, ast.Compare) and len(t_.ops) == 1 and isinstance(t_.left, ast.Name) and t_.left.id == rvar \
+                    and isinstance(t_.comparators[0], ast.Constant) and t_.comparators[0].value is None:
+                return (isinstance(t_.ops[0], ast.IsNot) and not pol_) or (isinstance(t_.ops[0], ast.Is) and pol_)
+            if isinstance(t_, ast.Name) and t_.id == rvar:
+                return not pol_
+            return False
+
+        def etag_sources(node, expr):
+            """(problems, is the addressed resource's etag) for the value of *expr* at *node*."""
+            bad, good = [], False
+            for o in origins(du, node, expr):
+                v = unwrap_await(o.leaf) if o.leaf is not None else None
+                if o.is_none():
+                    req = list(cfg.required_conditions(o.node)) if o.node is not None else []
+                    if not (any(absent_cond(tt, pol) for tt, pol in req) or any(absent_cond(tt, pol) for tt, pol, _n in o.conds)):
                         bad.append("None assigned although the resource may exist")
                     continue
-                if isinstance(v, ast.Call) and dotted(v.func) == rvar + ".get_etag":
-                    continue
-                bad.append("defined by `%s`" % (src(d.value) if d.value is not None else d.kind))
-            obs.append(ctx.ob(not bad, q, where(fi, t), "%s tested against %s.get_etag()" % (src(t.ast.args[0]), rvar),
+                if o.kind == "expr" and not o.path and isinstance(v, ast.Call) and isinstance(v.func, ast.Attribute) and v.func.attr == "get_etag":
+                    recv = origins(du, o.node, v.func.value)
+                    if recv and all(r_.kind == "expr" and r_.path == (2,) and isinstance(unwrap_await(r_.leaf), ast.Call)
+                                    and (dotted(unwrap_await(r_.leaf).func) or "").endswith("_get_resource_from_environ") for r_ in recv):
+                        good = True
+                        continue
+                bad.append("defined by `%s`" % (src(o.leaf) if o.leaf is not None else o.name))
+            return bad, good
+
+        for t in tests:
+            a = t.ast.args[1] if len(t.ast.args) > 1 else None
+            if a is None:
+                obs.append(ctx.bad(q, where(fi, t), "etag_matches compares a variable", "etag_matches has no second argument"))
+                continue
+            bad, good = etag_sources(t, a)
+            obs.append(ctx.ob(not bad and good, q, where(fi, t), "%s tested against %s.get_etag()" % (src(t.ast.args[0]), rvar),
                               "the tested etag is `await %s.get_etag()` of the addressed resource" % rvar,
-                              "the etag compared with the header is not the addressed resource's: " + "; ".join(bad)))
+                              "the etag compared with the header is not the addressed resource's: " + ("; ".join(bad) or "no get_etag() of it")))
         # handed down
         calls = [(n, c) for n in cfg.stmt_nodes() for c in n.calls()
                  if isinstance(c.func, ast.Attribute) and c.func.attr == eff_attr]
@@ -301,7 +320,10 @@ def p2(ctx):
             for k in c.keywords:
                 if k.arg in ("replace_etag", "etag"):
                     a = k.value
-            ok = isinstance(a, ast.Name) and a.id in evars
+            ok = False
+            if a is not None:
+                bad, good = etag_sources(n, a)
+                ok = good and not bad
             obs.append(ctx.ob(ok, q, where(fi, n), "%s receives the tested etag" % eff_attr,
                               "`%s` passes %s down, so the store re-checks it" % (eff_attr, src(a) if a is not None else "?"),
                               "`%s` is not given the etag that was tested (%s): the store cannot detect a change between "
@@ -339,33 +361,35 @@ def p3(ctx):
             obs.append(ctx.bad(fi.qualname, fi.where, "raises InvalidETag on mismatch",
                                "%s never raises InvalidETag: a stale replace_etag is accepted" % fi.short))
             continue
+        pos = [p for p in fi.params if p not in ("self", "cls")]
+        p_re = pos[2] if len(pos) > 2 else "replace_etag"
+        tests = param_compare_tests(cfg, du, p_re)
         for r in raises:
             req = cfg.required_conditions(r)
-            has_present = any(test_polarity_absent(t, "replace_etag") is not None and
-                              ((test_polarity_absent(t, "replace_etag") == "f") == pol) for t, pol in req)
+            has_present = any(test_polarity_absent(t, p_re) is not None and
+                              ((test_polarity_absent(t, p_re) == "f") == pol) for t, pol in req)
             cmp_ok = False
-            for t, pol in req:
-                if isinstance(t, ast.Compare) and len(t.ops) == 1 and isinstance(t.ops[0], (ast.NotEq, ast.Eq)):
-                    names = {x.id for x in ast.walk(t) if isinstance(x, ast.Name)}
-                    if "replace_etag" in names and pol == isinstance(t.ops[0], ast.NotEq):
-                        other = names - {"replace_etag"}
-                        for o in other:
-                            for d in du.reaching(r, o):
-                                v = d.value
-                                if isinstance(v, ast.Call) and dotted(v.func) == "self._get_etag":
-                                    cmp_ok = True
+            for tn in tests:
+                t = tn.ast
+                diff = "t" if isinstance(t.ops[0], ast.NotEq) else "f"
+                # the raise is only reachable through the 'different' edge of this comparison
+                if r.id in cfg.reachable([cfg.entry], block_edges=[(tn, m, l) for m, l in tn.succ if l == diff]):
+                    continue
+                for side in (t.left, t.comparators[0]):
+                    if p_re in depends_on(du, tn, side):
+                        continue
+                    os_ = origins(du, tn, side)
+                    cur = [o for o in os_ if o.kind == "expr" and isinstance(o.leaf, ast.Call) and dotted(o.leaf.func) == "self._get_etag"]
+                    rest = [o for o in os_ if o not in cur and not (o.kind == "expr" and isinstance(o.leaf, ast.Constant) and o.leaf.value is None)]
+                    if cur and not rest:
+                        cmp_ok = True
             obs.append(ctx.ob(has_present and cmp_ok, fi.qualname, where(fi, r), "InvalidETag iff replace_etag given and different",
                               "raise is control-dependent on `replace_etag is not None and etag != replace_etag` with etag = self._get_etag(name)",
                               "the InvalidETag refusal is not guarded by a comparison of replace_etag with self._get_etag(name)"))
         # the non-raising exit requires equality when an etag is given: the return is not reachable from the mismatch edge
-        # (covered by `guarded` below)
-        tests = [n for n in cfg.nodes if n.kind == "test" and isinstance(n.ast, ast.Compare)
-                 and "replace_etag" in {x.id for x in ast.walk(n.ast) if isinstance(x, ast.Name)}
-                 and isinstance(n.ast.ops[0], (ast.NotEq, ast.Eq))]
-        rets = [n for n in cfg.nodes if n.kind in ("return",)] + [cfg.exit]
         if tests:
             fail = "t" if isinstance(tests[0].ast.ops[0], ast.NotEq) else "f"
-            byp = _bypass(cfg, ["replace_etag"])
+            byp = _bypass(cfg, [p_re])
             covered, blocked = guarded(cfg, [cfg.exit], tests, fail, byp)
             obs.append(ctx.ob(covered and blocked, fi.qualname, where(fi, tests[0]), "normal return implies etag matched or not given",
                               "every normal return passed the comparison (or replace_etag is None)",
@@ -376,10 +400,7 @@ def p3(ctx):
         muts = [n for n in cfg.stmt_nodes() if F.node_mutations(fi, n)]
         if not muts:
             raise AnalysisError("%s.delete_one: no mutation found" % cq)
-        tests = [n for n in cfg.nodes if n.kind == "test" and isinstance(n.ast, ast.Compare)
-                 and isinstance(n.ast.ops[0], (ast.NotEq, ast.Eq))
-                 and "etag" in {x.id for x in ast.walk(n.ast) if isinstance(x, ast.Name)}
-                 and not (isinstance(n.ast.comparators[0], ast.Constant) and n.ast.comparators[0].value is None)]
+        tests = param_compare_tests(cfg, DefUse(cfg), "etag")
         if not tests:
             obs.append(ctx.bad(fi.qualname, fi.where, "etag compared before delete",
                                "%s never compares `etag` with the current etag" % fi.short))
